@@ -157,6 +157,13 @@ std::map<std::string, Ent> *g_files;
 struct Fault { int err; bool writesOnly; };
 std::map<std::string, Fault> *g_faults;
 std::map<std::string, Ent> &files() { if (!g_files) { HarnessScope hs; g_files = new std::map<std::string, Ent>(); } return *g_files; }
+struct PipeEnt { int rfd = -1; std::string got; };
+std::map<std::string, PipeEnt> &pipes() { static auto *m = new std::map<std::string, PipeEnt>(); return *m; }
+void pump(PipeEnt &e) {
+  if (e.rfd < 0) return;
+  char buf[65536];
+  for (;;) { ssize_t n = ::read(e.rfd, buf, sizeof buf); if (n > 0) e.got.append(buf, (size_t)n); else break; }
+}
 std::map<std::string, Fault> &faults() { if (!g_faults) { HarnessScope hs; g_faults = new std::map<std::string, Fault>(); } return *g_faults; }
 
 std::string norm(const char *p) {
@@ -181,6 +188,8 @@ void reset() {
   HarnessScope hs;
   for (auto &kv : files()) close(kv.second.fd);
   files().clear();
+  for (auto &kv : pipes()) if (kv.second.rfd >= 0) close(kv.second.rfd);
+  pipes().clear();
   faults().clear();
   counters = Counters();
 }
@@ -248,9 +257,35 @@ long readFd0(char *buf, size_t n) {
 }
 void noteClose(FILE *fp) { if (fp && fp == g_fd0File) { g_fd0File = nullptr; g_fd0Real = -1; g_fd0Readable = false; g_log.evs("fd0_released", ""); } }
 
+void makePipe(const std::string &path) { HarnessScope hs; pipes()[norm(path.c_str())] = PipeEnt(); }
+bool isPipe(const std::string &path) { HarnessScope hs; return pipes().count(norm(path.c_str())) != 0; }
+std::string drainPipe(const std::string &path) {
+  HarnessScope hs;
+  auto it = pipes().find(norm(path.c_str()));
+  if (it == pipes().end()) return std::string();
+  pump(it->second);
+  return it->second.got;
+}
+
 static FILE *simOpen(const char *path, const char *mode) {
   HarnessScope hs;
   std::string k = norm(path);
+  {
+    auto pi = pipes().find(k);
+    if (pi != pipes().end()) {
+      bool writing = std::strchr(mode, 'w') || std::strchr(mode, 'a') || std::strchr(mode, '+');
+      if (!writing || pi->second.rfd >= 0) { errno = ENXIO; g_log.evs("open_pipe_refused", k); return nullptr; }
+      int p[2];
+      if (pipe2(p, O_CLOEXEC) != 0) { perror("simfs pipe"); abort(); }
+      fcntl(p[1], F_SETPIPE_SZ, 1 << 20);
+      fcntl(p[0], F_SETFL, O_NONBLOCK);
+      pi->second.rfd = p[0];
+      g_log.evs("open_pipe", k);
+      FILE *fp = fdopen(p[1], "w");
+      if (!fp) { perror("simfs fdopen pipe"); abort(); }
+      return fp;
+    }
+  }
   bool rd = false, wr = false, app = false, plus = false, trunc = false, create = false;
   for (const char *m = mode; *m; m++) {
     switch (*m) {
